@@ -2,6 +2,7 @@ package props
 
 import (
 	"fmt"
+	"html/template"
 	"reflect"
 	"regexp"
 	"strings"
@@ -697,10 +698,74 @@ func c11EmbeddedFields(b *core.B) {
 	}
 }
 
+// c11VariableTails: a path whose later steps use variables (an index, a key, a method
+// argument) names the element those variables select *now*: in every pass of a loop that
+// changes them, and after every reassignment.
+func c11VariableTails(b *core.B) {
+	r := b.Rng(0xC117)
+	root := buildNode(r, "root", 3)
+	for i := range root.Kids {
+		// make sure there is something to select on every level
+		for len(root.Kids[i].Kids) < 2 {
+			root.Kids[i].Kids = append(root.Kids[i].Kids, buildNode(r, fmt.Sprintf("root.Kids[%d].Kids[%d]", i, len(root.Kids[i].Kids)), 1))
+		}
+	}
+	nodes := []PNode{buildNode(r, "nodes[0]", 2), buildNode(r, "nodes[1]", 2)}
+	byKey := map[string]PNode{"k0": buildNode(r, `bk["k0"]`, 1), "k1": buildNode(r, `bk["k1"]`, 1)}
+	keys := []string{"k0", "k1"}
+	paths := []struct {
+		src string
+		nav func(j int) string
+	}{
+		{"root.Kids[j].Name", func(j int) string { return root.Kids[j].Name }},
+		{"root.Kids[1].Kids[j].Name", func(j int) string { return root.Kids[1].Kids[j].Name }},
+		{"root.Kids[j].Kids[1 - j].Name", func(j int) string { return root.Kids[j].Kids[1-j].Name }},
+		{"root.Self().Kids[j].Tags[j]", func(j int) string { return root.Kids[j].Tags[j] }},
+		{"root.Kid(j).Name", func(j int) string { return root.Kid(j).Name }},
+		{"root.Kid(1).Kid(j).Label()", func(j int) string { return root.Kid(1).Kid(j).Label() }},
+		{"nodes[j].Tags[1 - j]", func(j int) string { return nodes[j].Tags[1-j] }},
+		{"nodes[j].Pair[j].S", func(j int) string { return nodes[j].Pair[j].S }},
+		{"bk[keys[j]].Name", func(j int) string { return byKey[keys[j]].Name }},
+		{"bk[keys[j]].Attr[keys[1 - j]]", func(j int) string { return byKey[keys[j]].Attr[keys[1-j]] }},
+		{"nodes[j].Attr[keys[j]]", func(j int) string { return nodes[j].Attr[keys[j]] }},
+	}
+	seq := []int{0, 1, 1, 0, 1}
+	for _, p := range paths {
+		forms := []string{
+			"<%= for (j) in [0, 1, 1, 0, 1] { %><%= P %>|<% } %>",
+			"<% let j = 0 %><%= P %>|<% j = 1 %><%= P %>|<%= P %>|<% j = 0 %><%= P %>|<% j = 1 %><%= P %>|",
+			"<% let f = fn(j) { return P } %><%= f(0) %>|<%= f(1) %>|<%= f(1) %>|<%= f(0) %>|<%= f(1) %>|",
+			"<%= for (q) in [0, 1, 1, 0, 1] { %><% let j = q %><%= P %>|<% } %>",
+		}
+		want := ""
+		for _, j := range seq {
+			want += template.HTMLEscapeString(p.nav(j)) + "|"
+		}
+		for _, f := range forms {
+			src := strings.Replace(f, "P", p.src, -1)
+			if !b.Begin(src) {
+				continue
+			}
+			ctx := plush.NewContext()
+			ctx.Set("root", root)
+			ctx.Set("nodes", nodes)
+			ctx.Set("bk", byKey)
+			ctx.Set("keys", keys)
+			res := render(b, src, ctx)
+			b.NonTrivialStr(src)
+			b.Count("path-with-variable-tail")
+			if res.Pan == nil && (res.Err != nil || res.Out != want) {
+				b.Violate("wrong-element|path-with-variable-tail", fmt.Sprintf("Go navigation: %q\n       engine: %s", want, res))
+			}
+		}
+	}
+}
+
 func c11Run(b *core.B) {
 	if b.Batch == 0 {
 		c11MixedTypes(b)
 		c11EmbeddedFields(b)
+		c11VariableTails(b)
 	}
 	r := b.Rng(1)
 	nGraphs := 2
